@@ -225,6 +225,9 @@ Proof.
   - destruct (dcb s d); reflexivity.
   - destruct (dcb s d); reflexivity.
   - destruct (dcb s d); reflexivity.
+  - destruct (dcb s d); reflexivity.
+  - destruct (dcb s d); reflexivity.
+  - destruct (dcb s d); reflexivity.
 Qed.
 
 Lemma RI_tick s ts : RI s -> RI (s <| clock := ts |>).
